@@ -25,10 +25,10 @@ NATIVE = '<' if sys.byteorder == 'little' else '>'
 
 
 def describe(tier):
-    return dict(bounds=dict(codes=list(CODES), prefixes=list(PREFIXES), counts=['none', 1, 2, 3, 10, 12], two_code_formats='all ordered pairs of codes',
+    return dict(bounds=dict(codes=list(CODES), prefixes=list(PREFIXES), counts=['none', 1, 2, 3, 10, 12], two_code_formats='all ordered pairs of codes' + ('' if tier == 'quick' else '; all ordered triples of codes x 7 count patterns (incl. count 0, 10) x value rotations'),
                             int_values='min, min+1, -1, 0, 1, max-1, max per code', float_values='+-0.0, 1.0, -1.5, +-inf, nan, min subnormal, max finite, a value that rounds',
                             array_pairs='every (struct code, array typecode) pair', endian='all 65536 16-bit contents; boundary patterns at 24/32/64/128 bits',
-                            byteswap_patterns=[None, 0, 1, 2, [1, 2], 'h', '<2h', 'bh', '10b', '12h', '2hq']),
+                            byteswap_patterns=[None, 0, 1, 2, [1, 2], 'h', '<2h', 'bh', '10b', '12h', '2hq'], byteswap_windows='every pattern x 10 (start, end) windows x repeat x 2 classes'),
                 rule='each (format, value tuple, route) executed once; non-trivial = struct accepts the value tuple / the typecode matches',
                 assumptions=["struct with '@' read as '=' (no padding, standard sizes) is the definition, as doc/array.rst states",
                              'only a little-endian host can be run; native expectations derive from sys.byteorder'])
@@ -66,6 +66,8 @@ def feq(a, b):
 def shards(tier, seed):
     out = [dict(kind='single', prefix=p) for p in PREFIXES]
     out += [dict(kind='pairs', prefix=p) for p in PREFIXES]
+    if tier == 'thorough':
+        out += [dict(kind='triples', prefix=p, first=c) for p in PREFIXES for c in CODES]
     out.append(dict(kind='array-array'))
     for lo in range(0, 65536, 8192):
         out.append(dict(kind='endian16', lo=lo, hi=lo + 8192))
@@ -78,6 +80,8 @@ def run_shard(shard, acc):
     bs = core.import_bitstring()
     with core.watchdog(1500):
         k = shard['kind']
+        if k == 'triples':
+            return triples(bs, acc, shard['prefix'], shard['first'])
         if k == 'single':
             single(bs, acc, shard['prefix'])
         elif k == 'pairs':
@@ -165,6 +169,22 @@ def pairs(bs, acc, p):
         check_pack(bs, acc, f"{p}{a}, {p}{b}", sfmt(p, a + b), (va[1], vb[-1]))
         check_pack(bs, acc, f"2*{p}{a}{b}", sfmt(p, a + b + a + b), (va[1], vb[-1], va[-1], vb[0]))
     acc.sample(dict(prefix=p, event="pack(p + 'hQ', ...), pack('2*' + p + 'bH', ...) against struct"))
+
+
+def triples(bs, acc, p, a):
+    """thorough: every ordered triple of codes with counts on each position, every value rotation."""
+    va = vals(a)
+    for b, c in itertools.product(CODES, CODES):
+        vb, vc = vals(b), vals(c)
+        for i in range(max(len(va), len(vb), len(vc))):
+            t = (va[i % len(va)], vb[(i * 3 + 1) % len(vb)], vc[(i * 5 + 2) % len(vc)])
+            check_pack(bs, acc, p + a + b + c, sfmt(p, a + b + c), t)
+        for ca, cb, cc in ((2, 1, 1), (1, 2, 1), (1, 1, 2), (0, 1, 2), (1, 0, 1), (3, 1, 0), (10, 1, 1)):
+            body = ''.join((str(k) if k != 1 else '') + x for k, x in ((ca, a), (cb, b), (cc, c)))
+            sbody = ''.join(str(k) + x for k, x in ((ca, a), (cb, b), (cc, c)))
+            t = tuple(va[j % len(va)] for j in range(ca)) + tuple(vb[(j + 1) % len(vb)] for j in range(cb)) + tuple(vc[(j + 2) % len(vc)] for j in range(cc))
+            check_pack(bs, acc, p + body, sfmt(p, sbody), t)
+    acc.sample(dict(prefix=p, first=a, event="pack(p + 'h2Bq', ...) for every ordered triple of codes and 7 count patterns against struct"))
 
 
 TYPECODES = 'bBhHiIlLqQfd'
